@@ -10,6 +10,7 @@ case "$name" in
   *-b) base="${name%-b}"; wt=/tmp/seed2-$base; out=/tmp/seed2-$base-out ;;
   *-c) base="${name%-c}"; wt=/tmp/seed3-$base; out=/tmp/seed3-$base-out ;;
   *-d) base="${name%-d}"; wt=/tmp/seed4-$base; out=/tmp/seed4-$base-out ;;
+  *-e) base="${name%-e}"; wt=/tmp/seed5-$base; out=/tmp/seed5-$base-out ;;
   *)   wt=/tmp/seed-$name; out=/tmp/seed-$name-out ;;
 esac
 dst=/verif/seeded/$name
